@@ -7,14 +7,18 @@ function is called (`BytecodeCompiler.__init__` → `DefineUse.analyze` → `Rea
 fpy2/analysis/{define_use,reaching_defs}.py) → `duB`: it raises `KeyError(name)` when a use has no
 reaching definition *in its own scoping discipline*, before any statement runs.
 
-The rules follow the CURRENT code, statement kind by statement kind.  Two switches describe
-the repaired rules (both `true` = the code as it is today):
-  * `forLeak`: `_visit_for` merges the body environment with the environment *in which the loop
-    target is already bound* (`env = self._visit_binding(stmt.target, env)` … `return env.merge(body_env)`),
-    so the target counts as defined after the loop.  `false`: merge with the pre-loop environment.
-  * `absorb`: `_visit_return` yields an empty *terminated* environment which `_Env.merge` absorbs.
-    `false`: a `return` leaves the environment unchanged and nothing is ever terminated (this is the
-    discipline of `ReachingDefs`, which knows nothing about terminated paths).
+The rules follow the CURRENT code (after the repairs of findings F6 and F21), statement kind by
+statement kind.  Switches keep the earlier rules available (`Mode.legacy`, `duB false`), for the
+theorems that record why the repairs were needed:
+  * `forLeak` (`false` today): before F6, `_visit_for` merged the body environment with the
+    environment *in which the loop target was already bound*, so the target counted as defined after
+    the loop.  Today it merges with the pre-loop environment.
+  * `absorb` (`true` today): `_visit_return` yields an empty *terminated* environment which
+    `_Env.merge` absorbs.  `false`: a `return` leaves the environment unchanged and nothing is ever
+    terminated.
+  * `ft` of `duS`/`duB` (`true` today): since F21, `_ReachingDefs._visit_if` continues with the
+    definitions of the only branch that can fall through (`_falls_through`) when the other one always
+    returns.  `false`: it intersected the two branches whatever they do.
 Core Lean only.
 -/
 import Fpy.Model.Skel.Skel
@@ -70,13 +74,12 @@ structure Mode where
   absorb : Bool
 deriving Repr, DecidableEq
 
-/-- the code as it is -/
-def Mode.real : Mode := ⟨true, true⟩
-/-- `_visit_for` repaired, everything else as it is -/
-def Mode.fixFor : Mode := ⟨false, true⟩
-/-- a returning branch lends nothing to its sibling, `_visit_for` as it is -/
-def Mode.noAbsorb : Mode := ⟨true, false⟩
-/-- loop targets do not leak and a returning branch lends nothing to its sibling -/
+/-- the code as it is (F6 repaired) -/
+def Mode.real : Mode := ⟨false, true⟩
+/-- the code before the repair of F6: loop targets leak -/
+def Mode.legacy : Mode := ⟨true, true⟩
+/-- loop targets do not leak and a returning branch lends nothing to its sibling
+(the discipline of the pre-F21 definition/use pre-pass) -/
 def Mode.strict : Mode := ⟨false, false⟩
 
 /-- `_mark_use` -/
@@ -195,33 +198,62 @@ def duE (c : Scope) : Expr → Except Name Unit
   | .comp ts it body => do duE c it; duE (c.addAll ts) body
 
 mutual
+/-- `_falls_through` (reaching_defs.py): can control reach the end of the statement / block? -/
+def fallsS : Stmt → Bool
+  | .ret _ => false
+  | .ite _ t e => fallsB t || fallsB e
+  | .with _ _ b => fallsB b
+  | .assign _ _ => true
+  | .if1 _ _ => true
+  | .while _ _ => true
+  | .for _ _ _ => true
+  | .eff _ => true
+  | .pass => true
+def fallsB : Block → Bool
+  | .nil => true
+  | .cons s b => fallsS s && fallsB b
+end
+
+mutual
 /-- keys of the `_ReachingDefs` context after the statement; uses are looked up in the
-context that reaches the statement -/
-def duS (c : Scope) : Stmt → Except Name Scope
+context that reaches the statement.  `ft`: `_visit_if` is fall-through aware (the code today). -/
+def duS (ft : Bool) (c : Scope) : Stmt → Except Name Scope
   | .assign ts e => do duE c e; pure (c.addAll ts)
-  | .if1 cnd t => do duE c cnd; let _ ← duB c t; pure c
-  | .ite cnd t e => do duE c cnd; let o1 ← duB c t; let o2 ← duB c e; pure (o1.inter o2)
-  | .while cnd b => do duE c cnd; let _ ← duB c b; pure c
-  | .for ts it b => do duE c it; let _ ← duB (c.addAll ts) b; pure c
-  | .with e as b => do duE c e; duB (c.addOpt as) b
+  | .if1 cnd t => do duE c cnd; let _ ← duB ft c t; pure c
+  | .ite cnd t e => do
+      duE c cnd
+      let o1 ← duB ft c t
+      let o2 ← duB ft c e
+      pure (if ft && (fallsB t != fallsB e) then (if fallsB t then o1 else o2) else o1.inter o2)
+  | .while cnd b => do duE c cnd; let _ ← duB ft c b; pure c
+  | .for ts it b => do duE c it; let _ ← duB ft (c.addAll ts) b; pure c
+  | .with e as b => do duE c e; duB ft (c.addOpt as) b
   | .ret e => do duE c e; pure c
   | .eff e => do duE c e; pure c
   | .pass => pure c
-def duB (c : Scope) : Block → Except Name Scope
+def duB (ft : Bool) (c : Scope) : Block → Except Name Scope
   | .nil => pure c
-  | .cons s b => do let c' ← duS c s; duB c' b
+  | .cons s b => do let c' ← duS ft c s; duB ft c' b
 end
 
 /-- `.error x`: the first call raises `KeyError(x)` from `DefineUse.analyze` -/
-def prepass (p : Func) : Except Name Unit :=
-  match duB (Scope.ofList p.args) p.body with
+def prepassWith (ft : Bool) (p : Func) : Except Name Unit :=
+  match duB ft (Scope.ofList p.args) p.body with
   | .ok _ => .ok ()
   | .error x => .error x
 
+/-- the pre-pass of the code as it is -/
+def prepass (p : Func) : Except Name Unit := prepassWith true p
+/-- the pre-pass before the repair of F21 -/
+def prepassLegacy (p : Func) : Except Name Unit := prepassWith false p
+
 /-- calling an accepted function through the byte-code interpreter: compile (pre-pass), then run -/
-def run (z : Bool) (fuel : Nat) (p : Func) (ch : List Nat) : Final :=
-  match prepass p with
+def runWith (ft : Bool) (z : Bool) (fuel : Nat) (p : Func) (ch : List Nat) : Final :=
+  match prepassWith ft p with
   | .error x => .unbound x
   | .ok _ => call z fuel p ch
+
+def run (z : Bool) (fuel : Nat) (p : Func) (ch : List Nat) : Final := runWith true z fuel p ch
+def runLegacy (z : Bool) (fuel : Nat) (p : Func) (ch : List Nat) : Final := runWith false z fuel p ch
 
 end Fpy.Skel
